@@ -2,9 +2,11 @@ package main
 
 import (
 	"context"
+	"encoding/json"
 	"os"
 	"runtime/metrics"
 	"sync"
+	"sync/atomic"
 	"time"
 )
 
@@ -103,4 +105,58 @@ func watchdog(d time.Duration, f func()) (hung bool) {
 	case <-time.After(d):
 		return true
 	}
+}
+
+// runBatch processes cases on j workers and writes every record as soon as it is ready
+// (one line). f must call beat() whenever it starts a new run of the real code. If no
+// beat arrives for `limit`, the case is hung inside the real code (it neither returns nor
+// reacts to its cancelled context): its record is hang(case), and the process exits at
+// once with status 3 so that the runaway goroutine dies; the orchestrator restarts the
+// command on the cases not reported yet (lib/vcheck.py run_restartable).
+func runBatch(in, out string, j int, limit time.Duration, f func(map[string]any, func()) map[string]any, hang func(map[string]any) map[string]any) error {
+	var cases []map[string]any
+	if err := readNDJSON(in, func(c map[string]any) error { cases = append(cases, c); return nil }); err != nil {
+		return err
+	}
+	fh, err := os.OpenFile(out, os.O_CREATE|os.O_WRONLY|os.O_APPEND, 0o644)
+	if err != nil {
+		return err
+	}
+	var mu sync.Mutex
+	write := func(rec map[string]any) {
+		b, err := json.Marshal(rec)
+		if err != nil {
+			b, _ = json.Marshal(map[string]any{"id": rec["id"], "marshal_error": err.Error()})
+		}
+		mu.Lock()
+		fh.Write(append(b, '\n'))
+		mu.Unlock()
+	}
+	parallel(len(cases), j, func(i int) {
+		var rec map[string]any
+		var last atomic.Int64
+		last.Store(time.Now().UnixNano())
+		done := make(chan struct{})
+		go func() {
+			defer close(done)
+			rec = f(cases[i], func() { last.Store(time.Now().UnixNano()) })
+		}()
+		tick := time.NewTicker(100 * time.Millisecond)
+		defer tick.Stop()
+		for {
+			select {
+			case <-done:
+				write(rec)
+				return
+			case <-tick.C:
+				if time.Since(time.Unix(0, last.Load())) > limit {
+					write(hang(cases[i]))
+					mu.Lock()
+					fh.Sync()
+					os.Exit(3)
+				}
+			}
+		}
+	})
+	return fh.Close()
 }
